@@ -346,6 +346,31 @@ def small_bsp(scratch: Path) -> str:
     return _SMALL_BSP[key]
 
 
+# ways of making BSP.save fail that do not involve the file system: name -> class of the exception that escapes save()
+BSP_BREAKS = {
+    'version-none': 'ValueError',      # raised by the first statement inside the `with AtomicWriter` (no write yet)
+    'lump-data-str': 'TypeError',      # a lump in the middle of the write order holds a str: file.write raises mid-way
+    'rebuild-raises': 'BodyError',     # the rebuild phase (before the writer is entered) raises from a lump generator
+}
+
+
+def bsp_break(b: Any, brk: str) -> None:
+    from srctools.bsp import BSP_LUMPS, LUMP_WRITE_ORDER
+    if brk == 'version-none':
+        b.version = None
+    elif brk == 'lump-data-str':
+        b.lumps[LUMP_WRITE_ORDER[len(LUMP_WRITE_ORDER) // 2]].data = 'not-bytes'
+    elif brk == 'rebuild-raises':
+        def boom(self: Any, data: Any):
+            yield b'partial-lump-data'
+            raise BodyError()
+        b._save_funcs = dict(b._save_funcs)          # instance copy; the class-level table stays as it is
+        b._save_funcs[BSP_LUMPS.ENTITIES] = boom
+        b._parsed_lumps[BSP_LUMPS.ENTITIES] = object()
+    else:
+        raise ValueError(brk)
+
+
 def run_single(sc: dict, root: str, fault_at: int | None = None, crash_at: int | None = None) -> dict:
     """Run one scenario on the real code. Returns ops, outcome and final listing (not in crash mode: the child dies)."""
     populate(root, sc)
@@ -362,8 +387,16 @@ def run_single(sc: dict, root: str, fault_at: int | None = None, crash_at: int |
                 bspmod.AtomicWriter = AWSpy
                 try:
                     b = bspmod.BSP(sc['bsp'])
-                    with contextlib.redirect_stdout(io.StringIO()):
-                        b.save(dest)
+                    brk = sc.get('bsp_break')
+                    if brk:
+                        bsp_break(b, brk)
+                    try:
+                        with contextlib.redirect_stdout(io.StringIO()):
+                            b.save(dest)
+                    except Exception as e:
+                        if brk and type(e).__name__ == BSP_BREAKS[brk]:
+                            raise BodyError() from e      # the failure this scenario provokes
+                        raise
                 finally:
                     bspmod.AtomicWriter = real
             else:
@@ -527,6 +560,28 @@ def single_campaign(ck: Ck, scs: list[dict], do_model: bool) -> None:
     work = ck.scratch / 'c12_single'
     cases: list[dict] = []        # model cases to evaluate: {'coq':..., 'check': fn(result)}
     for si, sc in enumerate(scs):
+        _single_scenario(ck, work, si, sc, do_model, cases)
+    if do_model:
+        eval_cases(ck, cases, 'single')
+
+
+class _Keyed:
+    """ck with violation keys prefixed for one scenario class (BSP.save scenarios get their own keys and replays)."""
+
+    def __init__(self, ck: Ck, prefix: str, flag: str) -> None:
+        self._ck, self._prefix, self._flag = ck, prefix, flag
+
+    def __getattr__(self, name: str) -> Any:
+        return getattr(self._ck, name)
+
+    def violation(self, key: str, what: str, replay: Any, no_input: bool = False) -> None:
+        self._ck.extra[self._flag] = self._ck.extra.get(self._flag, 0) + 1
+        self._ck.violation(self._prefix + key, what, replay, no_input)
+
+
+def _single_scenario(ck0: Ck, work: Path, si: int, sc: dict, do_model: bool, cases: list[dict]) -> None:
+    ck: Any = _Keyed(ck0, 'bsp-save:', 'bsp_violations') if sc.get('bsp') else ck0
+    if True:
         def fresh(tag: str) -> str:
             d = str(work / f's{si}_{tag}')
             shutil.rmtree(d, ignore_errors=True)
@@ -545,7 +600,8 @@ def single_campaign(ck: Ck, scs: list[dict], do_model: bool) -> None:
         old = sc['init'].get(sc['dest'])
         init_names = set(sc['init'])
         patho = NameMap.tmp_index(os.path.basename(sc['dest'])) is not None
-        raising = sc.get('raise_after') is not None
+        raising = sc.get('raise_after') is not None or bool(sc.get('bsp_break'))
+        pre_fail = sc.get('bsp_break') == 'rebuild-raises'     # BSP.save fails before the writer is entered
         ck.hist('scenario_ops', len(ops0))
         ck.hist('scenario_kind', sc['kind'])
         # ---- oracle on the fault-free run
@@ -554,9 +610,14 @@ def single_campaign(ck: Ck, scs: list[dict], do_model: bool) -> None:
         if base['outcome'] != exp_out:
             ck.violation(f'unexpected-outcome:{sc["kind"]}', f'fault-free run ended with {base["outcome"]}',
                          {'scenario': sc_json(sc), 'outcome': base['outcome']})
-            continue
+            return
         if raising:
             new = old
+            if base['listing'].get(sc['dest']) != old:
+                ck.violation('dest-changed-after-body-exception',
+                             f'the write was abandoned by an exception but the destination holds '
+                             f'{base["listing"].get(sc["dest"])!r:.60} instead of the previous {old!r:.40}',
+                             replay_obj('fault', sc, k=0))
         elif sc.get('expect') is not None and new != sc['expect']:
             ck.violation(f'wrong-content:{sc["kind"]}', 'destination does not hold what the body wrote',
                          {'scenario': sc_json(sc)})
@@ -564,6 +625,10 @@ def single_campaign(ck: Ck, scs: list[dict], do_model: bool) -> None:
         if left:
             ck.violation(f'temp-left-after-{"body-exception" if raising else "success"}',
                          f'files {sorted(left)} left after a fault-free run', {'scenario': sc_json(sc)})
+        if pre_fail and ops0:
+            ck.violation('fs-operation-before-save-entered-the-writer',
+                         f'BSP.save failed while rebuilding lumps but had already performed {[(o["op"], o["name"]) for o in ops0]}',
+                         replay_obj('fault', sc, k=0))
         # write tokens of the fault-free trace
         writes0 = [o for o in ops0 if o['op'] == 'write']
         wmap = {j + 1: (o['off'], o['data']) for j, o in enumerate(writes0)}
@@ -594,6 +659,8 @@ def single_campaign(ck: Ck, scs: list[dict], do_model: bool) -> None:
                     ck.obligation(name, False, what.get('why', 'operation outside the model'))
                     ck.tie_broken.append('correspondence AtomicWriter trace: ' + what.get('why', ''))
                 return
+            if pre_fail:
+                cut = 0       # the writer is never entered: the model performs no step at all
             coq = (f'corr_case aw_cfg {nm.coq_init()} {scen_coq} {cut} {coq_list(map(str, faults))} '
                    f'{coq_list(nm.probe_names(max_tmp))}')
             cases.append(dict(coq=coq, events=real_events, listing=real_listing, committed=real_committed, nm=nm,
@@ -685,8 +752,6 @@ def single_campaign(ck: Ck, scs: list[dict], do_model: bool) -> None:
             fidx = [i for i, e in enumerate(evf or []) if e[3] == 3]
             add_case(len(r['ops']) + 5, fidx[:1], evf, lst, committed,
                      {'run': f'OSError at op {k} ({at})', 'scenario': sc_json(sc), 'why': whyf}, False)
-    if do_model:
-        eval_cases(ck, cases, 'single')
 
 
 def eval_cases(ck: Ck, cases: list[dict], tag: str) -> None:
@@ -787,9 +852,25 @@ def scenarios(ck: Ck) -> list[dict]:
 def bsp_scenarios(ck: Ck) -> list[dict]:
     src = small_bsp(ck.scratch)
     out = []
+    full = {'maps/test.bsp': b'OLD-BSP-CONTENT', 'maps/other.bsp': b'other', 'maps/tmp_1': b'STALE1'}
+    fresh = {'maps/other.bsp': b'other', 'maps/tmp_1': b'STALE1'}        # "save as": the destination does not exist yet
     for bs in ([256, 1024, 8192] if is_big(ck) else [512]):
-        out.append(dict(kind=f'bsp-save-buf{bs}', dest='maps/test.bsp', bsp=src, bufsize=bs,
-                        init={'maps/test.bsp': b'OLD-BSP-CONTENT', 'maps/other.bsp': b'other', 'maps/tmp_1': b'STALE1'}))
+        out.append(dict(kind=f'bsp-save-buf{bs}', dest='maps/test.bsp', bsp=src, bufsize=bs, init=full))
+    for bs in ([64, 512, 8192] if is_big(ck) else [512]):
+        out.append(dict(kind=f'bsp-save-fresh-path-buf{bs}', dest='maps/test.bsp', bsp=src, bufsize=bs, init=fresh))
+        # the body of the `with` raises after some lumps have been written (a lump holds a str)
+        out.append(dict(kind=f'bsp-save-fresh-path-body-raises-buf{bs}', dest='maps/test.bsp', bsp=src, bufsize=bs,
+                        init=fresh, bsp_break='lump-data-str'))
+    out.append(dict(kind='bsp-save-body-raises', dest='maps/test.bsp', bsp=src, bufsize=64, init=full,
+                    bsp_break='lump-data-str'))
+    out.append(dict(kind='bsp-save-fresh-path-no-version', dest='maps/test.bsp', bsp=src, bufsize=512, init=fresh,
+                    bsp_break='version-none'))
+    out.append(dict(kind='bsp-save-new-directory', dest='newdir/maps/test.bsp', bsp=src, bufsize=8192, init={'keep.txt': b'k'}))
+    # the rebuild phase raises: the writer is never entered, nothing may happen in the directory
+    out.append(dict(kind='bsp-save-rebuild-raises', dest='maps/test.bsp', bsp=src, bufsize=512, init=full,
+                    bsp_break='rebuild-raises'))
+    out.append(dict(kind='bsp-save-fresh-path-rebuild-raises', dest='maps/test.bsp', bsp=src, bufsize=512, init=fresh,
+                    bsp_break='rebuild-raises'))
     return out
 
 
@@ -1017,6 +1098,8 @@ def run(ck: Ck) -> None:
             'bsp_module_never_modifies_files_directly': 'match bsp_fs_write_sites with nil => true | _ => false end',
             'bsp_save_writes_only_through_the_handle': 'forallb snd bsp_save_writes',
             'bsp_save_handle_is_binary': 'bsp_save_handle_is_bytes',
+            'bsp_save_output_is_always_an_atomic_writer':
+                'match bsp_save_with_ctors with nil => false | l => forallb snd l end',
         })
     # AST digests only escalate budgets (DESIGN 5.4)
     dig = side.get('digests', {})
@@ -1053,7 +1136,7 @@ def _campaigns(ck: Ck, built: bool) -> None:
     t1 = time.time()
     two_writer_campaign(ck, bool(built))
     stage['two'] = round(time.time() - t1, 1)
-    keys = {v['key'] for v in ck.violations}
+    keys = {v['key'].removeprefix('bsp-save:') for v in ck.violations}
     if any(k.startswith('temp-left-after-close-fault') or k.startswith('temp-left-after-flush-fault') for k in keys):
         ck.explain('instance:failing_close_still_unlinks_temp')
     if any(k.startswith('temp-left-after-replace-fault') for k in keys):
@@ -1068,6 +1151,9 @@ def _campaigns(ck: Ck, built: bool) -> None:
             ck.explain(nme)
     if keys:
         ck.explain('correspondence:')
+    if ck.extra.get('bsp_violations'):
+        ck.explain('instance:bsp_')
+        ck.explain('translate:')
     if any('mixture' in k or k.startswith(('dest-changed', 'new-content', 'temp-left', 'temp-file-outside', 'wrong-content',
                                             'two-writers:', 'foreign-file'))
            for k in keys):
@@ -1100,8 +1186,8 @@ def replay(data: dict) -> int:
             sc['init'] = {n: bytes.fromhex(v) for n, v in sc['init'].items()}
             sc['chunks'] = [bytes.fromhex(c) if not sc.get('text') else c for c in sc.get('chunks', [])]
             if sc.get('bsp'):
-                sc['bsp'] = small_bsp(Path(root + '_src'))
                 os.makedirs(root + '_src', exist_ok=True)
+                sc['bsp'] = small_bsp(Path(root + '_src'))
             print('before:', {k: v[:40] for k, v in sc['init'].items()})
             if r['mode'] == 'crash':
                 rc, lst = run_crash(sc, os.path.join(root, 'd'), r['k'])
